@@ -183,4 +183,4 @@ def _obligations():
 
 
 def obligations():
-    return _obligations() + [effects_obligation("C11")]
+    return _obligations() + [labels_obligation("C11"), effects_obligation("C11")]
